@@ -168,7 +168,7 @@ func ruleSendRdbResults(w *core.World, r *core.Report) {
 	for _, s := range sinks {
 		noErr := false
 		for _, fct := range core.FactsAt(s.Instr.Block()) {
-			c, ok := core.AsCmp(fct.Cond, fct.Val)
+			c, ok := core.FactCmp(fct)
 			if ok && isLenErrs(c.X) && isConstInt(0)(c.Y) && (c.Op == token.LEQ || c.Op == token.EQL) {
 				noErr = true
 			}
@@ -186,7 +186,7 @@ func ruleSendRdbResults(w *core.World, r *core.Report) {
 	for _, s := range sinks {
 		okAlive := false
 		for _, fct := range core.FactsAt(s.Instr.Block()) {
-			c, ok := core.AsCmp(fct.Cond, fct.Val)
+			c, ok := core.FactCmp(fct)
 			if ok && c.Op == token.EQL && core.IsNilConst(c.Y) && isCtxErr(c.X) {
 				// the test happens after the collection loop
 				call := core.Unwrap(c.X).(*ssa.Call)
@@ -277,9 +277,33 @@ func ruleParserErrors(w *core.World, r *core.Report) {
 			r.Unresolved("ParseRdb/goroutine", "parser goroutine not found")
 		} else {
 			// entry literals sent on the pipe: which fields are set
-			sentKind := func(p *core.Path, v ssa.Value) string {
+			var sentKind func(p *core.Path, v ssa.Value) string
+			sentKind = func(p *core.Path, v ssa.Value) string {
+				if p != nil {
+					v = p.Resolve(v)
+				}
 				a, ok := core.Unwrap(v).(*ssa.Alloc)
 				if !ok {
+					// built by a small constructor: what every return of it builds
+					if c, isC := core.Unwrap(v).(*ssa.Call); isC {
+						if g := c.Call.StaticCallee(); g != nil && len(g.Blocks) > 0 && g.Signature.Results().Len() == 1 {
+							kind := ""
+							for _, in := range core.OwnInstrs(g) {
+								if ret, isRet := in.(*ssa.Return); isRet {
+									for _, rv := range core.RetVals(ret, 0) {
+										k := sentKind(nil, rv)
+										if kind != "" && k != kind {
+											return "entry"
+										}
+										kind = k
+									}
+								}
+							}
+							if kind != "" {
+								return kind
+							}
+						}
+					}
 					return "entry"
 				}
 				kind := "entry"
@@ -344,7 +368,7 @@ func ruleParserErrors(w *core.World, r *core.Report) {
 				}
 				versionGate := false
 				for _, fct := range p.Conds {
-					if c, ok := core.AsCmp(fct.Cond, fct.Val); ok {
+					if c, ok := core.FactCmp(fct); ok {
 						if ld, ok := c.X.(*ssa.UnOp); ok {
 							if g, ok := ld.X.(*ssa.Global); ok && g.Name() == "RdbVersion" {
 								versionGate = true // formats before version 3 carry no checksum
@@ -377,7 +401,31 @@ func ruleParserErrors(w *core.World, r *core.Report) {
 			continue
 		}
 		n := 0
+		scan := core.DeepFuncs(g)
+		// a helper that takes the pipe and does the receive for its callers
 		for _, h := range core.DeepFuncs(g) {
+			for _, cs := range core.Sites(h, false) {
+				if cs.Callee == nil || cs.Callee.Parent() != nil || len(cs.Callee.Blocks) == 0 || cs.Instr.Parent() != h {
+					continue
+				}
+				takesPipe := false
+				for _, a := range cs.Common().Args {
+					if ch, isCh := a.Type().Underlying().(*types.Chan); isCh && strings.HasSuffix(ch.Elem().String(), "rdb.BinEntry") {
+						takesPipe = true
+					}
+				}
+				already := false
+				for _, x := range scan {
+					if x == cs.Callee {
+						already = true
+					}
+				}
+				if takesPipe && !already {
+					scan = append(scan, cs.Callee)
+				}
+			}
+		}
+		for _, h := range scan {
 			for _, in := range core.Instrs(h) {
 				sel, ok := in.(*ssa.Select)
 				if !ok {
@@ -419,6 +467,13 @@ func ruleParserErrors(w *core.World, r *core.Report) {
 							}
 						case *ssa.Send:
 							return strings.HasSuffix(x.X.Type().String(), "rdb.BinEntry")
+						case *ssa.Return:
+							// handing the entry back to the caller is using it
+							for _, rv := range x.Results {
+								if strings.HasSuffix(rv.Type().String(), "rdb.BinEntry") && !core.IsNilConst(rv) {
+									return true
+								}
+							}
 						}
 						return false
 					}
@@ -522,7 +577,7 @@ func ruleShortSnapshot(w *core.World, r *core.Report) {
 			// a possibly-nil return must be dominated by remaining == 0
 			okZero := false
 			for _, fct := range core.FactsAt(ret.Block()) {
-				c, ok := core.AsCmp(fct.Cond, fct.Val)
+				c, ok := core.FactCmp(fct)
 				if ok && c.Op == token.EQL && isConstInt(0)(c.Y) {
 					if ph, ok := c.X.(*ssa.Phi); ok && phiStartsFromField(ph, "RdbReader", "size") {
 						okZero = true // the remaining-bytes counter: initialised from the announced size
@@ -592,7 +647,7 @@ func ruleShortSnapshot(w *core.World, r *core.Report) {
 			n++
 			okDone := false
 			for _, fct := range core.FactsAt(ret.Block()) {
-				c, ok := core.AsCmp(fct.Cond, fct.Val)
+				c, ok := core.FactCmp(fct)
 				if !ok {
 					continue
 				}
@@ -915,7 +970,7 @@ func ruleRecoverFrames(w *core.World, r *core.Report) {
 			}
 			recovered := false
 			for _, fct := range p.Conds {
-				c, ok := core.AsCmp(fct.Cond, fct.Val)
+				c, ok := core.FactCmp(fct)
 				if ok && c.Op == token.NEQ && core.Unwrap(p.Resolve(c.X)) == ssa.Value(rec) && core.IsNilConst(c.Y) {
 					recovered = true
 				}
